@@ -599,6 +599,9 @@ def c08_one(rec, case):
     c = unjson_floats(case)
     rng = np.random.default_rng(c['pseed'])
     n_models, n_ap, version = c['n_models'], c['n_ap'], c['version']
+    m_ = c['m'] % n_models
+    if c.get('mixed') and version == 1:
+        m_ = 1 + c['m'] % (n_models - 1)
     n_f = 4
     # non-degenerate models: different spectral shapes
     n_wav = 30
@@ -609,9 +612,27 @@ def c08_one(rec, case):
                     flux if not c['wav_desc'] else flux[:, :, ::-1], 0.05 * (flux if not c['wav_desc'] else flux[:, :, ::-1]),
                     par_order=list(rng.permutation(n_models)) if (c['permute'] and version == 1) else (list(rng.permutation(n_models)) if c['permute'] else None))
     spec.logd_step = 0.125        # log10(10/1)/0.125 = 8 exactly: the trial distances are exactly 9 points
+    if c.get('mixed') and version == 1:
+        # per-file package whose SED files alternate between two wavelength grids of the same size and end
+        # points but different interior nodes; each model is tabulated on its own grid
+        t_ = np.linspace(0., 1., n_wav)
+        wb = wav[0] * (wav[-1] / wav[0]) ** (t_ ** 1.5)
+        wb[0], wb[-1] = wav[0], wav[-1]
+        wavs, fl = [], []
+        for i in range(n_models):
+            # the planted model is never the first file read, and sits on the other grid than that one
+            wi = wb if (i == m_ or (i > 0 and i % 3 == 0)) else wav
+            p_ = np.log(shapes[i][-1] / shapes[i][0]) / np.log(wav[-1] / wav[0])
+            fi = (wi / 10.) ** p_ * (1.3 + 0.5 * np.sin(np.log(wi) * (1. + 0.37 * i) + i))
+            fi = fi[None, :] * (np.cumsum(np.linspace(0.6, 1.4, n_ap))[:, None] if n_ap > 1 else 1.)
+            wavs.append(wi if not c['wav_desc'] else wi[::-1])
+            fl.append(fi if not c['wav_desc'] else fi[:, ::-1])
+        spec.wavs = wavs
+        spec.flux = np.array(fl)
+        spec.error = 0.05 * spec.flux
     centres = [1.5, 6., 20., 70.]
     filters = [_box_filter('F%d' % j, cw * 0.8, cw * 1.2, cw, n=4, desc=bool(j % 2)) for j, cw in enumerate(centres)]
-    m = c['m'] % n_models
+    m = m_
     av0 = c['av0']
     ext = pkg.simple_extinction()
     k = np.asarray(ext.get_av(np.array(centres) * u.micron))
@@ -666,14 +687,14 @@ def c08_one(rec, case):
 
 def run_c08(tier, seed):
     rec = Recorder('C08', 'planted (model, A_V, distance/scale) through convolve_model_dir -> fit -> write_parameters on synthetic non-degenerate packages: both formats, '
-                          '1 or 3 apertures (distance-dependent), permuted parameter tables, SEDs in either spectral order, filters in either storage order, relative '
+                          '1 or 3 apertures (distance-dependent), permuted parameter tables, per-file packages mixing two wavelength grids of equal size and end points, SEDs in either spectral order, filters in either storage order, relative '
                           'errors 1e-3..0.3, planted source second in the data file or alone; distinct = (format, mode, m)')
     rng = np.random.default_rng(seed + 8)
     n = 6 if tier == 'quick' else 150
     for t in range(n):
         case = dict(seed=seed, tag='c08', pseed=int(rng.integers(1, 10 ** 6)), version=1 + t % 2, n_models=int(rng.integers(2, 7)), n_ap=1 if (t // 2) % 2 == 0 else 3,
                     m=int(rng.integers(0, 8)), av0=float(rng.uniform(0.2, 6.)), sc0=float(rng.uniform(-0.5, 0.8)), d_idx=int(rng.integers(0, 9)), rel=float(10. ** rng.uniform(-2, -0.5)),
-                    permute=bool(t % 3), wav_desc=bool(t % 2), second=bool(t % 4 < 2))
+                    permute=bool(t % 3), wav_desc=bool(t % 2), second=bool(t % 4 < 2), mixed=bool(t % 4 == 2 or t % 8 == 0))
         try:
             c08_one(rec, case)
         except Exception as e:
